@@ -35,6 +35,15 @@ PY_TYPES = {'str': str, 'bytes': bytes, 'bool': bool, 'int': int,
             'float': float, 'tuple': tuple, 'list': list, 'dict': dict,
             'set': set, 'frozenset': frozenset, 'range': range}
 
+PURE_STR_METHODS = {
+    'lower', 'upper', 'strip', 'lstrip', 'rstrip', 'replace', 'split',
+    'rsplit', 'splitlines', 'partition', 'rpartition', 'startswith',
+    'endswith', 'count', 'find', 'rfind', 'index', 'rindex', 'join',
+    'isdigit', 'isascii', 'isalpha', 'isalnum', 'isspace', 'isprintable',
+    'title', 'capitalize', 'casefold', 'removeprefix', 'removesuffix',
+    'zfill', 'format', 'encode', 'decode', 'hex', 'swapcase', 'center',
+    'ljust', 'rjust', 'expandtabs', 'isupper', 'islower', 'isnumeric',
+    'isdecimal', 'isidentifier', 'istitle'}
 STR_RET = {'lower', 'upper', 'strip', 'lstrip', 'rstrip', 'replace',
            'format', 'join', 'decode', 'title', 'capitalize', 'removesuffix',
            'removeprefix', 'casefold', 'hex'}
@@ -394,8 +403,11 @@ def slice_(interp, base, lo, hi, step):
     if isinstance(base, T) and base.op == 'bytes' and \
             isinstance(step, K) and step.v is None:
         return bytes_slice(interp, base, lo, hi)
-    return T('slice', interp.termify(base), interp.termify(lo),
-             interp.termify(hi), interp.termify(step))
+    t = T('slice', interp.termify(base), interp.termify(lo),
+          interp.termify(hi), interp.termify(step))
+    if isinstance(base, T) and interp.types.get(base) in ('str', 'bytes'):
+        interp.types[t] = interp.types[base]
+    return t
 
 
 def bytes_slice(interp, base, lo, hi):
@@ -689,6 +701,10 @@ def get_attr_external(interp, base, name, missing_ok=False):
         if interp.types.get(base) in ('str', 'bytes') or base.op in (
                 'mcall',):
             return Method(base, name)
+        if name in PURE_STR_METHODS and interp.types.get(base) is None \
+                and base.op in ('item', 'sub', 'slice', 'group', 'elem',
+                                'fmt', 'format', 'binop'):
+            return Method(base, name)
         return T('attr', base, name)
     if isinstance(base, Method):
         return T('attr', interp.termify(base.base), base.name, name)
@@ -883,6 +899,10 @@ def method_term(interp, base, name, args, kwargs):
         'bytes' if isinstance(tb, K) and isinstance(tb.v, bytes) else None)
     if isinstance(tb, T) and tb.op == 'bytes':
         bt = 'bytes'
+    if bt is None and name in PURE_STR_METHODS and isinstance(tb, T) and \
+            tb.op in ('item', 'sub', 'slice', 'group', 'elem', 'fmt',
+                      'format', 'binop', 'mcall'):
+        return t
     if bt in ('str', 'bytes'):
         if name in STR_RET and not (bt == 'str' and name == 'decode'):
             interp.types[t] = 'str' if (bt == 'str' or name in (
@@ -1384,6 +1404,14 @@ def b_exc_info(interp, args, kwargs):
                    T('tb', interp.termify(exc))])
 
 
+def b_parse_qsl(interp, args, kwargs):
+    if _all_k(args, kwargs):
+        from urllib import parse
+        return from_python([tuple(p) for p in parse.parse_qsl(
+            *[a.v for a in args], **{k: v.v for k, v in kwargs.items()})])
+    return NotImplemented
+
+
 def b_operator(sym):
     def f(interp, args, kwargs):
         if len(args) != 2:
@@ -1410,6 +1438,7 @@ BUILTINS = {
     'math.ceil': b_math_ceil, 'pow': b_pow, 'map': b_map,
     'functools.reduce': b_reduce, 'divmod': b_divmod,
     'sys.exc_info': b_exc_info, 'format': b_format,
+    'urllib.parse.parse_qsl': b_parse_qsl,
     'round': b_pure('round'),
     'operator.lt': b_operator('lt'), 'operator.le': b_operator('le'),
     'operator.eq': b_operator('eq'), 'operator.ne': b_operator('ne'),
